@@ -39,8 +39,12 @@ def scenarios(seed, n):
                 acts = [{"at": 0, "act": "adv", "k": 0, "d": 10}]
                 acts += [{"at": 1, "act": "set", "k": k, "d": 0} for k in range(N) if rng.randrange(4)]
                 acts.append({"at": 2, "act": "adv", "k": 0, "d": 12})
+        pre = 0
+        if j % 6 == 4:
+            # the iterator is obtained, kept for a while (some entries expire meanwhile, unswept) and consumed afterwards
+            pre = rng.choice([5, 12, 25])
         out.append({"stable": 0, "churn": 0, "writers": 0, "iters": 0, "bounded": (j // 5) % 2, "expiry": 1, "kind": kind,
-                    "seed": seed * 100000 + 90000 + j, "body": 1, "n": N, "ttl": ttl, "step": step, "acts": acts})
+                    "seed": seed * 100000 + 90000 + j, "body": 1, "n": N, "ttl": ttl, "step": step, "acts": acts, "pre": pre})
     return out
 
 
